@@ -67,6 +67,10 @@ func parseHeaders(headers []qpack.HeaderField, isRequest bool) (header, error) {
 			case ":scheme":
 				hdr.Scheme = h.Value
 			case ":status":
+				// the status code is a three-digit integer, see section 15 of RFC 9110
+				if !isValidStatusCode(h.Value) {
+					return header{}, fmt.Errorf("invalid status code: %q", h.Value)
+				}
 				hdr.Status = h.Value
 				isResponsePseudoHeader = true
 			default:
@@ -117,6 +121,19 @@ func parseHeaders(headers []qpack.HeaderField, isRequest bool) (header, error) {
 		hdr.ContentLength = int64(cl)
 	}
 	return hdr, nil
+}
+
+// isValidStatusCode reports whether v consists of exactly three digits.
+func isValidStatusCode(v string) bool {
+	if len(v) != 3 {
+		return false
+	}
+	for i := 0; i < len(v); i++ {
+		if v[i] < '0' || v[i] > '9' {
+			return false
+		}
+	}
+	return true
 }
 
 func parseTrailers(headers []qpack.HeaderField) (http.Header, error) {
